@@ -171,6 +171,24 @@ def run_case(case):
             discs.append(Disc(asp, ".".join(loc), "model %r doctrans %r" % (progs.node_id(mnode), progs.node_id(got))))
     except Exception as e:
         discs.append(raise_disc(e, "find"))
+    # ---- (1a) the same definition spelled `async def`: a location names a definition by its qualified path, whichever
+    # statement introduces it; judged only where the plain spelling resolved correctly, so nothing else is re-reported
+    if mkind == "def" and not discs:
+        try:
+            lines = src.split("\n")
+            ln = mnode.lineno - 1
+            if lines[ln].lstrip().startswith("def "):
+                tags.add("async_variant")
+                ind = len(lines[ln]) - len(lines[ln].lstrip())
+                lines[ln] = lines[ln][:ind] + "async " + lines[ln][ind:]
+                src_a = "\n".join(lines)
+                want = mnode.name, mnode.lineno
+                got = find_in_ast(list(loc), ast_parse(src_a, skip_docstring_remit=True))
+                if not (isinstance(got, ast.AsyncFunctionDef) and (got.name, got.lineno) == want):
+                    discs.append(Disc("find:async-def", ".".join(loc), "`async def` at line %d: doctrans resolved %r" % (
+                        want[1], None if got is None else (type(got).__name__, getattr(got, "lineno", None)))))
+        except Exception as e:
+            discs.append(raise_disc(e, "find-async"))
     # ---- (1b) the caller's location list is an input, not scratch space: one list object is reused for a lookup that
     # starts at the class the location begins with (when there is one) and then for the lookup from the module
     try:
